@@ -221,6 +221,7 @@ class Inst:
         self.more = set()        # services that answered MORE and were not re-queried yet
         self.queried = {}        # svc -> [steps]
         self.accounts = []       # (svc, account) vouched by awaited login-capable services
+        self.acct_proto = {}     # (svc, account) -> protocol of the service when it vouched
         self.ok = set()          # services that answered OK while awaited
         self.refused = False
         self.verdicts = []
@@ -248,6 +249,8 @@ class Spec:
     """Consumes (input line, output lines) per step; accumulates violations."""
 
     def __init__(self, conf, policies=None):
+        self.last_proto = {}     # service -> protocol it had when last configured (a removed service that still owes
+        #                          answers keeps serving the clients that wait for it)
         self.conf = conf
         self.policies = policies  # string after 'O S', None if no O line
         self.serial = 0
@@ -259,6 +262,15 @@ class Spec:
         self.classes = set()
         self.notes = []
         self.expect_login = set()
+
+    @property
+    def conf(self):
+        return self._conf
+
+    @conf.setter
+    def conf(self, c):
+        self._conf = c
+        self.last_proto.update({s_: p_ for s_, p_ in c.services.items() if p_})
 
     # ----------------------------------------------------------- required
     def required(self):
@@ -460,7 +472,7 @@ class Spec:
         if svc not in c.owing:
             self.classes.add("unawaited_reply")
             return
-        proto = self.conf.services.get(svc)
+        proto = self.conf.services.get(svc) or self.last_proto.get(svc)
         kind = None
         if cmd == "x":
             kind = "unlinked"
@@ -490,6 +502,7 @@ class Spec:
                 self.reply_ctx["acct"] = acct
                 if proto in LOGIN_TYPES:
                     c.accounts.append((svc, acct))
+                    c.acct_proto[(svc, acct)] = proto
                     if acct == "":
                         self.classes.add("empty_account")
         elif kind == "NO":
@@ -536,7 +549,8 @@ class Spec:
     def check_query(self, c, svc, text):
         """C06: timing and content of one query line."""
         proto = self.conf.services.get(svc)
-        if proto is None:
+        if proto is None and not (text.startswith("MORE ") and self.in_kind == "P-more" and svc in self.last_proto):
+            # (a challenge response still goes to the service that asked, even if a reload has dropped it meanwhile)
             self.v("C06", "query_unconfigured", "query sent to %s which is not a configured service" % svc)
             return
         if self.in_client is not c and self.in_kind != "timeout":
@@ -692,7 +706,7 @@ class Spec:
                 self.v("C05", "account_not_vouched", "%s accepted with account %r which no awaited login service vouched (vouched: %r)" % (c.tag, acct, offered))
         else:
             klass = parts[0] if parts else None
-            strong = [a for (s, a) in c.accounts if a and self.conf.services.get(s) in ("login", "login-ipr")]
+            strong = [a for (s, a) in c.accounts if a and c.acct_proto.get((s, a)) in ("login", "login-ipr")]
             if strong:
                 self.v("C05", "account_dropped", "%s accepted without the account %r vouched by a login service" % (c.tag, strong))
         if klass is not None and klass.startswith(":"):
